@@ -2,6 +2,7 @@ use crate::plan::barriers::SATBBarrier;
 use crate::plan::concurrent::barrier::SATBBarrierSemantics;
 use crate::plan::concurrent::immix::ConcurrentImmix;
 use crate::plan::concurrent::Pause;
+use crate::plan::mutator_context::common_release_func;
 use crate::plan::mutator_context::create_allocator_mapping;
 use crate::plan::mutator_context::create_space_mapping;
 
@@ -38,6 +39,9 @@ pub fn concurrent_immix_mutator_release<VM: VMBinding>(
     .downcast_mut::<ImmixAllocator<VM>>()
     .unwrap();
     immix_allocator.reset();
+
+    // The common spaces are released in the same pauses, too.
+    common_release_func(mutator, _tls);
 
     // Deactivate SATB
     if current_pause == Pause::Full || current_pause == Pause::FinalMark {
